@@ -109,16 +109,21 @@ def assemble_striped_ragged_array(local_array, global_lengths):
     global_array = np.zeros(shape=(np.sum(global_lengths),)) - 1
     global_ra = ra.RaggedArray(global_array, lengths=global_lengths)
 
+    starts = global_ra.starts
     for rank in range(mpi.size()):
         rank_array = mpi.comm.bcast(local_array, root=rank)
 
-        local_lengths = global_lengths[rank::mpi.size()]
-        if len(local_lengths) > 1:
-            rank_ra = ra.RaggedArray(
-                rank_array, lengths=local_lengths)
-            global_ra[rank::mpi.size()] = rank_ra
-        else:
-            global_ra[rank] = rank_array
+        # rows rank, rank + size, ... of the global array are the rows of
+        # rank_array, in order. They are written through the flat data: a
+        # RaggedArray keeps equal-length rows as a 2d block, which cannot
+        # be slice-assigned into a global array with unequal lengths.
+        pos = 0
+        for row in range(rank, len(global_lengths), mpi.size()):
+            n = global_lengths[row]
+            global_ra._data[starts[row]:starts[row] + n] = \
+                rank_array[pos:pos + n]
+            pos += n
+        assert pos == len(rank_array)
 
     assert np.all(global_ra._data) >= 0
 
@@ -132,7 +137,9 @@ def striped_array_max(local_array):
     the maximum of local maxes.
     """
 
-    local_max = local_array.max()
+    # a rank may own no data (more ranks than trajectories): -inf is the
+    # identity of max
+    local_max = local_array.max() if len(local_array) > 0 else -np.inf
 
     mpi.comm.Barrier()
     global_max = mpi.comm.allreduce(local_max, op=mpi.mpi4py.MAX)
